@@ -1,5 +1,6 @@
 import SkgVerif.Lemmas.Direction
 import SkgVerif.Model.Grouping
+import SkgVerif.Props.Transcribed.C12
 /-!
 # C12 — directional variograms use exactly the point pairs inside the search area
 
